@@ -474,7 +474,9 @@ class C06(Prop):
                             "required": "this dumps() raises TypeError or ValueError: a written part breaks a catalogue rule at that point of the sequence",
                             "kind": "accepted-invalid"}
                 if d not in ("TypeError", "ValueError"):
-                    return {"observed": dict(seq, dumps=d), "required": "dumps() raises TypeError or ValueError (not another class)", "kind": "wrong-class"}
+                    # (a value that is invalid only by the documented sense of `$` passes the validators, F15; the writer may then fail for another known reason)
+                    return {"observed": dict(seq, dumps=d, only_trailing_newline=bool(o["only_nl"])),
+                            "required": "dumps() raises TypeError or ValueError (not another class)", "kind": "wrong-class"}
             elif d != "ok":
                 return {"observed": dict(seq, dumps=d), "required": "every written part satisfies the catalogue at that point of the sequence: dumps() returns text",
                         "kind": "refused-valid"}
